@@ -29,6 +29,7 @@ ALL_FEATURES = [
     "alloptions", "shape_change", "never_keys", "partial_section_preset",
     "coalesce_value_fail",  # coalesce members that can fail because of a *value* (domain / switch)
     "abstract", "selector_ds", "step_params", "pipelines",
+    "row_keys",  # options reading members of the rows of a list of sections (R.1.N)
     "wide_values",  # dictionary values beyond the small scalar universe (floats, big ints, long / non-ASCII strings, nested lists)
     "opt_type",  # Options with a declared type (type validation requests)
     "callback_params",  # callbacks that are pipeline steps reading an option of their own
@@ -110,6 +111,8 @@ class SpecGen:
         pool = U.SCALAR_KEYS * 3 + U.SECTION_KEYS * 2 + U.DISPATCH_KEYS
         if self.cfg["lists"]:
             pool = pool + U.LIST_KEYS
+        if self.cfg.get("row_keys"):
+            pool = pool + U.ROW_KEYS * 2
         if self.cfg["whole_section"] and not scalar_only:
             pool = pool + U.WHOLE_KEYS
         return r.choice(pool)
